@@ -206,6 +206,7 @@ fn run_inner(c: &Case) -> Result<Outcome, Failure> {
 	let mut trigger: Option<(&'static str, Instant)> = None;
 	let mut silent_since_stop = true;
 	let mut unloaded_checked = false;
+	let mut flagged_and_processed = false;
 	for j in 0..c.callbacks {
 		match c.end {
 			End::StopAt(k) if k == j => {
@@ -229,6 +230,9 @@ fn run_inner(c: &Case) -> Result<Outcome, Failure> {
 			streamctl::grant(id, n);
 		}
 		streamctl::settle(&streams)?;
+		// (the hook reports an error after the error flag is published)
+		let flagged = streamctl::state(id).errors > 0;
+		let processed_now = c.place != Place::PausedSubTrack && !matches!(c.end, End::TrackDropped(k) if j >= k);
 		streamctl::set_callback_active(true);
 		let m = mgr.as_mut().unwrap();
 		let cb = m.backend_mut().callback(c.chunk, 2);
@@ -237,6 +241,12 @@ fn run_inner(c: &Case) -> Result<Outcome, Failure> {
 			return Err(Failure::panic("", p));
 		}
 		let state = handle.state();
+		if flagged && processed_now {
+			// (3) a decode error stops the sound at the next processed callback, without further audio
+			flagged_and_processed = true;
+			ensure!(state == PlaybackState::Stopped, "error-stops-the-sound", "the decoder had reported an error before callback {j}; after it the sound reports {state:?}; case {c:?}");
+			ensure!(cb.out.iter().all(|s| *s == 0.0), "silent-after-stopped", "the decoder had reported an error before callback {j}, yet the callback is not silent; case {c:?}");
+		}
 		if stopped_at.is_some() {
 			silent_since_stop &= cb.out.iter().all(|s| *s == 0.0);
 		}
@@ -268,11 +278,9 @@ fn run_inner(c: &Case) -> Result<Outcome, Failure> {
 	}
 	ensure!(silent_since_stop, "silent-after-stopped", "audio was emitted after the sound reported Stopped; case {c:?}");
 
-	// (3) a decode error stops the sound and the first error reaches the handle
+	// (3) ... and the first error reaches the handle
 	let errors = log.errors_returned.load(Ordering::SeqCst);
-	let processed = c.place != Place::PausedSubTrack && !matches!(c.end, End::ManagerDropped(_) | End::TrackDropped(_));
-	if errors > 0 && processed && c.callbacks >= 3 && !matches!(c.pace, Pace::Stalled(_)) {
-		ensure!(stopped_at.is_some(), "error-stops-the-sound", "the decoder reported an error but after {} callbacks the sound still reports {:?}; case {c:?}", c.callbacks, handle.state());
+	if flagged_and_processed {
 		let e = first_error.clone().or_else(|| handle.pop_error().map(|e| e.0));
 		let Some(e) = e else {
 			return Err(Failure::simple("first-error-reaches-the-handle", format!("the decoder reported {errors} error(s) but pop_error() returned nothing; case {c:?}")));
@@ -286,7 +294,7 @@ fn run_inner(c: &Case) -> Result<Outcome, Failure> {
 	}
 
 	// (3b) under a paused track the sound is not processed: the error must come through on resume
-	if errors > 0 && c.place == Place::PausedSubTrack && mgr.is_some() && track.is_some() && !matches!(c.pace, Pace::Stalled(_)) {
+	if streamctl::state(id).errors > 0 && c.place == Place::PausedSubTrack && mgr.is_some() && track.is_some() {
 		track.as_mut().unwrap().resume(instant());
 		for _ in 0..2 {
 			let cb = mgr.as_mut().unwrap().backend_mut().callback(c.chunk, 2);
